@@ -293,11 +293,15 @@ def run_cases(driver, component, cases, with_model=True, extra_env=None):
     impl, oracle, crash = exec_impl(driver, text, extra_env)
     # a reply may carry what the environment decided (pool hit or miss, ...) after " @@ ":
     # that part is an INPUT of the model (appended to the op), not an output to compare
-    if any(" @@ " in l for l in impl):
+    if any(" @@" in l for l in impl):
         in_lines = text.splitlines()
         out = []
         for i, l in enumerate(in_lines):
-            if i < len(impl) and " @@ " in impl[i]:
+            if i < len(impl) and impl[i].endswith(" @@="):
+                # the reply itself is what the model has to accept (trace acceptance)
+                impl[i] = impl[i][:-4]
+                out.append(l + " " + impl[i])
+            elif i < len(impl) and " @@ " in impl[i]:
                 rep, ann = impl[i].split(" @@ ", 1)
                 impl[i] = rep
                 out.append(l + " " + ann)
